@@ -1,12 +1,605 @@
-"""K7 — units of measure and position frames (filled in later in the build)."""
+"""K7 — position frames and sample units in vorbisfile.c (DESIGN 3.3/K7), as a tag analysis on top of K4.
+
+Every integer value that denotes a position or a length carries a *frame*:
+
+  Gs       granule position of a logical stream (page / packet granulepos)
+  Off:L    the initial granule offset of link L            (pcmlengths[2L])
+  Len      a duration in stream samples                    (pcmlengths[2L+1], block advances, samples<<hs)
+  Rl:L     position relative to the start of link L's audio (Gs - Off:L)
+  Pre:L    total length of the links before L               (forward sum over i<L, or total minus the links from L on)
+  Pg       position in the whole physical stream            (pcm_offset, the pos arguments, Rl:L + Pre:L)
+  Tot      the total length (ov_pcm_total(vf,-1)); as a position it is Pg
+  K        a constant (neutral)
+and a *unit*: S stream samples / D decoder-output samples (they differ by the half-rate shift `hs`).
+
+The frame of an expression is computed from the frames of its operands by the affine rules of DESIGN 3.3; locations
+(locals, vf->pcm_offset) hold the frame last stored; at control-flow joins differing frames are kept as a set, and a
+set with more than one member is a frame conflict when the value is used as a position.  No value is computed: the
+analysis only types the arithmetic, on every path."""
+import absint
+from absint import V, Hooks
+
+NEUTRAL = 'K'
 
 
-def c08(chk, P):
-    return
+def fjoin(a, b):
+    """frames are frozensets of frame names; K is neutral"""
+    if a is None:
+        return b
+    if b is None:
+        return a
+    r = (a | b)
+    if len(r) > 1:
+        r = r - {NEUTRAL}
+    return frozenset(r)
+
+
+def one(f):
+    return frozenset([f])
+
+
+class Frames(Hooks):
+    """tag analysis; results: self.stores = [(eid, key, frame set, unit set)] for stores to tracked sinks,
+    self.compares = [(eid, lhs frames, rhs frames)], self.unit_errors = [(eid, message)]"""
+
+    def __init__(self, P, F, linkform=None):
+        self.P, self.F = P, F
+        self.stores = []
+        self.compares = []
+        self.unit_errors = []
+        self.reads = []          # (call eid, unit set of the count argument) for vorbis_synthesis_read
+        self.loops = absint.cfg.loops(F)
+        self.hs_vars = set()     # locals holding the half-rate flag
+        self.linkkeys = {}       # link expression text -> K4 location key
+        self._prefix_loops()
+
+    # -- structure: loops that build prefix(L) ----------------------------------------------------
+    def _prefix_loops(self):
+        """induction info of simple counting loops: header -> (var id, 'up'|'down', bound text)"""
+        F = self.F
+        self.ind = {}
+        for h, body in self.loops.items():
+            t = F.blocks[h].get('term')
+            if not t or t.get('cond') is None:
+                continue
+            c = F.ex[F.strip_casts(t['cond'])]
+            if c['k'] != 'bin':
+                continue
+            a, b = (F.ex[F.strip_casts(x)] for x in c['c'])
+            if c['op'] in ('<', '<=') and a['k'] == 'ref':
+                self.ind[h] = (a['decl'].get('id'), 'up', F.s(F.strip_casts(c['c'][1])))
+            elif c['op'] in ('>=', '>') and a['k'] == 'ref':
+                self.ind[h] = (a['decl'].get('id'), 'down', F.s(F.strip_casts(c['c'][1])))
+
+    def loop_of(self, e):
+        """innermost counting loop containing node e: (var id, dir, bound) or None"""
+        pb = self.F.pos.get(e)
+        if pb is None:
+            return None
+        best = None
+        for h, body in self.loops.items():
+            if pb[0] in body and h in self.ind:
+                if best is None or len(body) < len(self.loops[best]):
+                    best = h
+        return self.ind[best] if best is not None else None
+
+    # -- state ------------------------------------------------------------------------------------
+    def on_entry(self, A, env):
+        fr = {}
+        un = {}
+        for p in self.F.params:
+            if p['name'] in ('pos', 'milliseconds') and 'int' in p['t'] or p['name'] == 'pos':
+                fr[f'v{p["id"]}'] = one('Pg')
+                un[f'v{p["id"]}'] = one('S')
+        env['$fr'] = fr
+        env['$un'] = un
+        return env
+
+    def join_special(self, k, a, b):
+        if k in ('$fr', '$un'):
+            a, b = a or {}, b or {}
+            out = {}
+            for x in set(a) | set(b):
+                out[x] = fjoin(a.get(x), b.get(x))
+            return out
+        return a if a == b else None
+
+    # -- frames of expressions ----------------------------------------------------------------------
+    def link_text(self, A, idx):
+        """pcmlengths[idx]: (parity, link expression text) for idx = 2*L, 2*L+1, L*2+1 ..."""
+        F = self.F
+        n = F.ex[F.strip_casts(idx)]
+        off = 0
+        if n['k'] == 'bin' and n['op'] == '+':
+            a, b = (F.strip_casts(x) for x in n['c'])
+            if F.ex[b]['k'] == 'int':
+                off = F.ex[b]['v']
+                n = F.ex[a]
+            elif F.ex[a]['k'] == 'int':
+                off = F.ex[a]['v']
+                n = F.ex[b]
+        if n['k'] == 'int':
+            v = n['v'] + off
+            return v % 2, str(v // 2)
+        if n['k'] == 'bin' and n['op'] == '*':
+            a, b = (F.strip_casts(x) for x in n['c'])
+            if F.ex[b]['k'] == 'int' and F.ex[b]['v'] == 2:
+                L = a
+            elif F.ex[a]['k'] == 'int' and F.ex[a]['v'] == 2:
+                L = b
+            else:
+                return None, None
+            txt = F.s(L)
+            if F.ex[L]['k'] in ('ref', 'member'):
+                k = A.path(L)
+                if k:
+                    self.linkkeys[txt] = k
+            return off % 2, self._shift(txt, off // 2)
+        return None, None
+
+    @staticmethod
+    def _shift(txt, k):
+        return txt if k == 0 else f'({txt}+{k})'
+
+    def same_link(self, env, la, lb):
+        """two link expressions denote the same link: same text, or the K4 equality aliases relate their locations
+        (vf->current_link=link; or the branch link==vf->current_link)"""
+        if la == lb:
+            return True
+        eq = env.get('$eq') or {}
+        ka, kb = self.linkkeys.get(la), self.linkkeys.get(lb)
+        if ka and kb and (eq.get(ka) == kb or eq.get(kb) == ka):
+            return True
+        return False
+
+    def frame(self, A, env, e):
+        """(frame set, unit set) of expression e"""
+        F = self.F
+        n = F.ex[e]
+        k = n['k']
+        c = n.get('c', [])
+        fr, un = env.get('$fr') or {}, env.get('$un') or {}
+        if k == 'int':
+            return one(NEUTRAL), None
+        if k == 'cast':
+            return self.frame(A, env, c[0])
+        if k == 'ref':
+            key = A.path(e, env)
+            return fr.get(key), un.get(key)
+        if k == 'member':
+            f = n.get('field')
+            rec = n.get('record')
+            if rec == 'OggVorbis_File' and f == 'pcm_offset':
+                key = A.path(e, env)
+                if key in fr:
+                    return fr[key], one('S')
+                return one('Pg'), one('S')
+            if f == 'granulepos' and rec in ('ogg_packet',):
+                return one('Gs'), one('S')
+            key = A.path(e, env)
+            return fr.get(key), un.get(key)
+        if k == 'sub':
+            b = F.ex[F.strip_casts(c[0])]
+            if b['k'] == 'member' and b.get('record') == 'OggVorbis_File' and b.get('field') == 'pcmlengths':
+                par, L = self.link_text(A, c[1])
+                if par == 0:
+                    return one(f'Off:{L}'), one('S')
+                if par == 1:
+                    return one(f'Len:{L}'), one('S')
+                return one('?pcmlengths'), one('S')
+            return None, None
+        if k == 'call':
+            d = n['callee'].get('d')
+            if d == 'ogg_page_granulepos':
+                return one('Gs'), one('S')
+            if d == 'ov_pcm_total':
+                a1 = F.ex[F.strip_casts(c[1])] if len(c) > 1 else None
+                if a1 is not None and ((a1['k'] == 'int' and a1['v'] == -1) or (a1['k'] == 'un' and a1['op'] == '-')):
+                    return one('Tot'), one('S')
+                return one('Len:' + F.s(F.strip_casts(c[1]))), one('S')
+            if d in ('vorbis_synthesis_pcmout', 'vorbis_synthesis_lapout'):
+                return one('Len'), one('D')
+            if d in ('vorbis_info_blocksize', 'vorbis_packet_blocksize'):
+                return one('Len'), one('S')
+            if d == 'vorbis_synthesis_halfrate_p':
+                return one(NEUTRAL), one('hs')
+            return None, None
+        if k == 'cond':
+            fa, ua = self.frame(A, env, c[1])
+            fb, ub = self.frame(A, env, c[2])
+            return fjoin(fa, fb), fjoin(ua, ub)
+        if k == 'assign':
+            return self.frame(A, env, c[1]) if n['op'] == '=' else self.combine(A, env, e, n['op'][:-1], c[0], c[1])
+        if k == 'comma':
+            return self.frame(A, env, c[1])
+        if k == 'un':
+            if n['op'] in ('-', '+'):
+                f, u = self.frame(A, env, c[0])
+                return (one(NEUTRAL) if f == one(NEUTRAL) else f), u
+            if n['op'] in ('post++', 'post--', 'pre++', 'pre--'):
+                return self.frame(A, env, c[0])
+            return None, None
+        if k == 'bin':
+            return self.combine(A, env, e, n['op'], c[0], c[1])
+        return None, None
+
+    def _uerr(self, A, item):
+        if A.final:
+            self.unit_errors.append(item)
+
+    def is_hs(self, A, env, e):
+        F = self.F
+        n = F.ex[F.strip_casts(e)]
+        if n['k'] == 'ref' and n['decl'].get('id') in self.hs_vars:
+            return True
+        if n['k'] == 'call' and n['callee'].get('d') == 'vorbis_synthesis_halfrate_p':
+            return True
+        if n['k'] == 'bin' and n['op'] == '+':
+            return any(self.is_hs(A, env, x) for x in n['c'])
+        if n['k'] == 'member' and n.get('field') == 'halfrate_flag':
+            return True
+        return False
+
+    def combine(self, A, env, e, op, ea, eb):
+        fa, ua = self.frame(A, env, ea)
+        fb, ub = self.frame(A, env, eb)
+        # units
+        u = None
+        if op in ('<<', '>>') and self.is_hs(A, env, eb):
+            if ua is not None:
+                if op == '<<':
+                    if ua == one('S'):
+                        self._uerr(A, (e, 'a stream-sample quantity is shifted left by the half-rate flag (already in stream samples)'))
+                    u = one('S')
+                else:
+                    if ua == one('D'):
+                        self._uerr(A, (e, 'a decoder-output-sample quantity is shifted right by the half-rate flag (already in output samples)'))
+                    u = one('D')
+            return fa, u
+        if op in ('<<', '>>', '*', '/'):
+            return (fa if fa and fa != one(NEUTRAL) and all(x.startswith('Len') for x in fa) else (fa if fb == one(NEUTRAL) and op in ('<<', '>>') else None)), ua
+        if op in ('+', '-'):
+            if ua and ub and ua != ub and 'hs' not in ua | ub:
+                self._uerr(A, (e, f'{self.F.s(e)}: adds/subtracts a quantity in {sorted(ua)} and one in {sorted(ub)} without the '
+                                         'half-rate shift'))
+            u = ua or ub
+            return self.affine(A, env, e, op, fa, fb), u
+        if op in ('<', '>', '<=', '>=', '==', '!='):
+            if fa and fb:
+                if A.final:
+                    self.compares.append((e, fa, fb))
+            if ua and ub and ua != ub and 'hs' not in ua | ub:
+                self._uerr(A, (e, f'{self.F.s(e)}: compares a quantity in {sorted(ua)} with one in {sorted(ub)} without the half-rate shift'))
+            return one(NEUTRAL), None
+        return None, None
+
+    def affine(self, A, env, e, op, fa, fb):
+        if fa is None and fb is None:
+            return None
+        if fa is None or fa == one(NEUTRAL):
+            return fb if op == '+' else (fb if fb is None or all(x.startswith('Len') or x == NEUTRAL for x in fb) else frozenset('?neg' for x in fb))
+        if fb is None or fb == one(NEUTRAL):
+            return fa
+        out = set()
+        lp = self.loop_of(e)
+        for a in fa:
+            for b in fb:
+                out.add(self.affine1(op, a, b, lp, env))
+        return frozenset(out)
+
+    def affine1(self, op, a, b, lp, env=None):
+        # an ill-typed value stays what it is (absorbing: keeps the domain finite)
+        if a.startswith(('!', '?')):
+            return a
+        if b.startswith(('!', '?')):
+            return b
+        ka, _, la = a.partition(':')
+        kb, _, lb = b.partition(':')
+        if kb == 'Len':
+            # adding the lengths of the links below L, one per iteration, builds prefix(L)
+            if lp is not None and lb and op == '+' and lp[1] == 'up':
+                ivar = self.F.vars.get(lp[0], {}).get('name')
+                if lb == ivar:
+                    return a        # one term of prefix(bound); the loop's exit edge promotes the frame
+            if lp is not None and lb and op == '-' and lp[1] == 'down' and ka in ('Tot', 'Pre'):
+                ivar = self.F.vars.get(lp[0], {}).get('name')
+                if lb == ivar:
+                    return f'Pre:{ivar}'
+            if ka in ('Tot',):
+                return 'Pg' if not lb else f'!Tot{op}Len:{lb}'
+            return a            # a duration moves a position inside its frame
+        if ka == 'Len':
+            if op == '+' and kb != 'Len':
+                return b
+            return 'Len' if kb == 'Len' else f'!Len{op}{b}'
+        if op == '-':
+            if ka == 'Gs' and kb == 'Off':
+                return f'Rl:{lb}'
+            if ka == 'Pg' and kb == 'Pre':
+                return f'Rl:{lb}'
+            if ka == 'Pg' and kb == 'Tot':
+                return 'Len'
+            if ka == kb and la == lb:
+                return 'Len'
+            if ka in ('Pg', 'Tot') and kb in ('Pg', 'Tot'):
+                return 'Len'
+            return f'!{a}-{b}'
+        if op == '+':
+            if ka == 'Rl' and kb == 'Off' and self.same_link(env or {}, la, lb):
+                return 'Gs'
+            if ka == 'Off' and kb == 'Rl' and self.same_link(env or {}, la, lb):
+                return 'Gs'
+            if ka == 'Rl' and kb == 'Pre' and self.same_link(env or {}, la, lb):
+                return 'Pg'
+            if ka == 'Pre' and kb == 'Rl' and self.same_link(env or {}, la, lb):
+                return 'Pg'
+            return f'!{a}+{b}'
+        return f'!{a}{op}{b}'
+
+    # -- loop exits: a finished prefix loop turns a link-relative position into a global one -------------
+    def _acc_keys(self, A):
+        """loop header -> set of location keys that the loop increases by pcmlengths[2*i+1] (i its induction variable)"""
+        if hasattr(self, '_acc'):
+            return self._acc
+        F = self.F
+        out = {}
+        for h, body in self.loops.items():
+            if h not in self.ind or self.ind[h][1] != 'up':
+                continue
+            ivar = F.vars.get(self.ind[h][0], {}).get('name')
+            for n, (b, _) in F.pos.items():
+                if b not in body:
+                    continue
+                nd = F.ex[n]
+                if nd['k'] == 'assign' and nd['op'] == '+=':
+                    r = F.ex[F.strip_casts(nd['c'][1])]
+                    if r['k'] == 'sub':
+                        bb = F.ex[F.strip_casts(r['c'][0])]
+                        if bb['k'] == 'member' and bb.get('field') == 'pcmlengths':
+                            par, L = self.link_text(A, r['c'][1])
+                            if par == 1 and L == ivar:
+                                k = A.path(nd['c'][0])
+                                if k:
+                                    out.setdefault(h, set()).add(k)
+        self._acc = out
+        return out
+
+    def _down_exit(self, A, env, cond):
+        """natural exit of the descending link search `for(link=links-1;link>=0;link--){total-=len[link]; if(pos>=total)break;}`:
+        whatever is left of the total is the prefix of the (exhausted) link variable"""
+        F = self.F
+        for h, body in self.loops.items():
+            if h not in self.ind or self.ind[h][1] != 'down':
+                continue
+            t = F.blocks[h].get('term')
+            if not t or t.get('cond') != cond:
+                continue
+            ivar = F.vars.get(self.ind[h][0], {}).get('name')
+            fr = dict(env.get('$fr') or {})
+            for n, (b, _) in F.pos.items():
+                if b not in body:
+                    continue
+                nd = F.ex[n]
+                if nd['k'] == 'assign' and nd['op'] == '-=':
+                    k = A.path(nd['c'][0])
+                    f = fr.get(k)
+                    if k and f and any(x == 'Tot' or x.startswith('Pre:') for x in f):
+                        fr[k] = frozenset((f'Pre:{ivar}' if (x == 'Tot' or x.startswith('Pre:')) else x) for x in f)
+            env['$fr'] = fr
+
+    def on_edge(self, A, env, cond, truth):
+        if truth:
+            return
+        self._down_exit(A, env, cond)
+        acc = self._acc_keys(A)
+        for h, keys in acc.items():
+            t = self.F.blocks[h].get('term')
+            if not t or t.get('cond') != cond:
+                continue
+            bound = self.ind[h][2]
+            fr = dict(env.get('$fr') or {})
+            for k in keys:
+                f = fr.get(k)
+                if k.endswith('->pcm_offset') and f is None:
+                    f = one('Pg')
+                new = set()
+                for x in (f or one(NEUTRAL)):
+                    kx, _, lx = x.partition(':')
+                    if kx == 'Rl' and lx == bound:
+                        new.add('Pg')
+                    elif x == NEUTRAL or kx == 'Pre':
+                        new.add(f'Pre:{bound}')
+                    elif x.startswith(('!', '?')):
+                        new.add(x)
+                    else:
+                        new.add(f'!{x}+prefix({bound})')
+                fr[k] = frozenset(new)
+            env['$fr'] = fr
+
+    # -- stores -----------------------------------------------------------------------------------
+    def on_store(self, A, env, e, key, val):
+        F = self.F
+        nd = A.ex[e]
+        if key is None:
+            return None
+        if nd['k'] == 'assign':
+            f, u = self.frame(A, env, e)
+            tgt = nd['c'][0]
+        elif nd['k'] == 'decl':
+            f = u = None
+            tgt = None
+            for v in nd['vars']:
+                if 'id' in v and f'v{v["id"]}' == key and v.get('init'):
+                    f, u = self.frame(A, env, v['init'])
+                    if self.is_hs(A, env, v['init']):
+                        self.hs_vars.add(v['id'])
+        else:
+            return None
+        if nd['k'] == 'assign' and nd['op'] == '=' and self.is_hs(A, env, nd['c'][1]):
+            l = F.ex[F.strip_casts(nd['c'][0])]
+            if l['k'] == 'ref':
+                self.hs_vars.add(l['decl'].get('id'))
+        fr = dict(env.get('$fr') or {})
+        un = dict(env.get('$un') or {})
+        # a clamp to a constant keeps the frame the location had (if(x<0)x=0)
+        if f == one(NEUTRAL) and key in fr and fr[key] and fr[key] != one(NEUTRAL):
+            cv = val.const() if isinstance(val, V) else None
+            if cv == 0:
+                f = fr[key]
+                u = un.get(key)
+        if f is None:
+            fr.pop(key, None)
+        else:
+            fr[key] = f
+        if u is None:
+            un.pop(key, None)
+        else:
+            un[key] = u
+        env['$fr'] = fr
+        env['$un'] = un
+        if tgt is not None:
+            l = F.ex[F.strip_casts(tgt)]
+            if l['k'] == 'member' and l.get('record') == 'OggVorbis_File' and l.get('field') == 'pcm_offset':
+                if A.final:
+                    self.stores.append((e, f, u, val.const() if isinstance(val, V) else None))
+        return None
+
+    def on_node(self, A, env, e, v):
+        nd = A.ex[e]
+        if A.final and nd['k'] == 'bin' and nd['op'] in ('<', '>', '<=', '>=', '==', '!='):
+            self.combine(A, env, e, nd['op'], nd['c'][0], nd['c'][1])
+
+    def on_call(self, A, env, e, avals):
+        nd = A.ex[e]
+        if nd['callee'].get('d') == 'vorbis_synthesis_read' and len(nd.get('c', [])) > 1:
+            f, u = self.frame(A, env, nd['c'][1])
+            if A.final:
+                self.reads.append((e, u))
+        return None
+
+
+def _seekable(A, env):
+    for k, x in env.items():
+        if isinstance(k, str) and k.endswith('->seekable') and isinstance(x, V):
+            if x.const() == 0:
+                return 'unseekable'
+            if x.lo > 0 or x.hi < 0 or 0 in x.ne:
+                return 'seekable'
+    return None
+
+
+def analyse(P, F):
+    """-> (Analyzer, Frames hook, exit frames): exit frames = [(return eid, seekable partition, frame set of vf->pcm_offset
+    or None when the function did not store it on that path)]"""
+    h = Frames(P, F)
+    A = absint.Analyzer(P, F, hooks=h, partition=_seekable)
+    A.run()
+    exits = []
+    for (e, env, v) in A.ret_states:
+        fr = env.get('$fr') or {}
+        f = None
+        for k, x in fr.items():
+            if k.endswith('->pcm_offset'):
+                f = x
+        exits.append((e, _seekable(A, env), f, v))
+    return A, h, exits
+
+
+# ----------------------------------------------------------------------------------------------------
+# rule entry points
+OK_POSITION = ('Pg', 'Tot', 'K')
+
+
+def _position_ok(f):
+    return all(x in OK_POSITION or x.startswith('Pre:') for x in f)
+
+
+def _pcm_offset_writers(P):
+    out = []
+    for F in P.functions():
+        if not F.file.endswith('vorbisfile.c'):
+            continue
+        for n in F.pos:
+            nd = F.ex[n]
+            if nd['k'] == 'assign':
+                l = F.ex[F.strip_casts(nd['c'][0])]
+                if l['k'] == 'member' and l.get('record') == 'OggVorbis_File' and l.get('field') == 'pcm_offset':
+                    r = F.ex[F.strip_casts(nd['c'][1])]
+                    if not (r['k'] == 'int' or (r['k'] == 'un' and r['op'] == '-')):
+                        out.append(F)
+                        break
+    return out
+
+
+_CACHE = {}
+
+
+def _run(P, F):
+    k = P.key(F)
+    if k not in _CACHE:
+        _CACHE[k] = analyse(P, F)
+    return _CACHE[k]
 
 
 def c07(chk, P):
-    return
+    chk.rule('R07.5', 'position-frame consistency: every function of vorbisfile.c that stores a computed value into vf->pcm_offset '
+             'leaves, at each of its exits on a seekable stream, a value in the frame "position in the whole physical stream": '
+             'obtained from a granule position by subtracting THAT link\'s initial granule offset (pcmlengths[2L]) and adding the '
+             'total length of the links before it (the forward sum over i<L of pcmlengths[2i+1], or the total minus the links '
+             'from L on), on every path; constants (-1, 0 clamps), the total, and advances by durations keep the frame.  The '
+             'arithmetic is typed, not evaluated')
+    ws = _pcm_offset_writers(P)
+    chk.require(len(ws) >= 5, f'only {len(ws)} functions store a computed pcm_offset')
+    for F in ws:
+        A, h, exits = _run(P, F)
+        k = P.key(F)
+        bad = {}
+        n_ok = 0
+        for (e, part, f, v) in exits:
+            if f is None or part == 'unseekable':
+                continue
+            if _position_ok(f):
+                n_ok += 1
+            else:
+                bad.setdefault(frozenset(x for x in f if not (x in OK_POSITION or x.startswith('Pre:'))), []).append(e)
+        if not bad:
+            chk.ob('R07.5', k, 'pcm_offset-in-physical-stream-frame', True, F.where(),
+                   f'{n_ok} exit states with a stored position, all in frame Pg; stores typed: {len({s[0] for s in h.stores})}')
+        for fs, es in bad.items():
+            chk.ob('R07.5', k, 'pcm_offset-in-physical-stream-frame', False, F.where(es[0]),
+                   f'at the return on line(s) {sorted({F.loc(x) for x in es})} vf->pcm_offset may hold a value of frame {sorted(fs)} '
+                   '(Gs = raw granule position, Rl:L = relative to link L, "!a+b" = ill-typed sum): on some path the initial granule '
+                   'offset of the link is not subtracted, or the lengths of the earlier links are not added')
+    chk.floor('R07.5', 5)
+
+
+def c08(chk, P):
+    chk.rule('R08.6', 'in the seek functions every comparison between two typed positions compares like with like (granule position '
+             'with granule position, physical-stream position with physical-stream position or total): the bisection target of '
+             'ov_pcm_seek_page is a granule position of the link searched')
+    n = 0
+    for fn in ('ov_pcm_seek_page', 'ov_pcm_seek', 'ov_raw_seek'):
+        F = P.need(fn)
+        A, h, exits = _run(P, F)
+        seen = {}
+        for (e, fa, fb) in h.compares:
+            fa2 = {x for x in fa if x != NEUTRAL}
+            fb2 = {x for x in fb if x != NEUTRAL}
+            if not fa2 or not fb2:
+                continue
+            ca = {('P' if (x in ('Pg', 'Tot') or x.startswith('Pre:')) else x.split(':')[0]) for x in fa2}
+            cb = {('P' if (x in ('Pg', 'Tot') or x.startswith('Pre:')) else x.split(':')[0]) for x in fb2}
+            ok = ca == cb and len(ca) == 1 and not any(x.startswith(('!', '?')) for x in fa2 | fb2)
+            prev = seen.get(e)
+            seen[e] = (ok and (prev[0] if prev else True), fa2, fb2)
+        same = {}
+        for e, (ok, fa2, fb2) in sorted(seen.items(), key=lambda kv: F.ex[kv[0]]['loc']):
+            key = f'{"/".join(sorted(fa2))}~{"/".join(sorted(fb2))}'
+            i = same.get(key, 0)
+            same[key] = i + 1
+            n += 1
+            chk.ob('R08.6', fn, f'compare:{key}#{i}', ok, F.where(e), f'{F.s(e)[:80]}: {sorted(fa2)} against {sorted(fb2)}')
+    chk.floor('R08.6', 4)
 
 
 def c09(chk, P):
@@ -14,4 +607,43 @@ def c09(chk, P):
 
 
 def c20(chk, P):
-    return
+    chk.rule('R20.1', 'units of measure in vorbisfile.c: quantities in decoder-output samples (results of vorbis_synthesis_pcmout/'
+             'lapout, the count given to vorbis_synthesis_read) and quantities in stream samples (pcm_offset, granule positions, '
+             'pcmlengths, seek targets) meet only through a shift by the half-rate flag: no addition, subtraction or comparison '
+             'mixes the two, the count consumed is in output samples, and the position advance is in stream samples')
+    n = 0
+    for F in P.functions():
+        if not F.file.endswith('vorbisfile.c'):
+            continue
+        uses = any(F.ex[c]['callee'].get('d') in ('vorbis_synthesis_read', 'vorbis_synthesis_pcmout', 'vorbis_synthesis_lapout')
+                   for c in F.calls())
+        if not uses:
+            continue
+        A, h, exits = _run(P, F)
+        k = P.key(F)
+        errs = {}
+        for (e, m) in h.unit_errors:
+            errs[e] = m
+        chk.ob('R20.1', k, 'no-unit-mixing', not errs, F.where(sorted(errs)[0]) if errs else F.where(),
+               'no expression mixes stream samples and decoder-output samples' if not errs else '; '.join(sorted(set(errs.values())))[:400])
+        n += 1
+        rd = {}
+        for (e, u) in h.reads:
+            rd[e] = (rd.get(e) or frozenset()) | (u or frozenset(['?']))
+        for i, (e, u) in enumerate(sorted(rd.items(), key=lambda kv: F.ex[kv[0]]['loc'])):
+            ok = u == one('D')
+            chk.ob('R20.1', k, f'consumed-count-in-output-samples#{i}', ok, F.where(e),
+                   f'the count passed to vorbis_synthesis_read is in {sorted(u)}')
+            n += 1
+        adv = {}
+        for (e, f, u, c) in h.stores:
+            nd = F.ex[e]
+            if nd['k'] == 'assign' and nd['op'] == '+=':
+                r = F.ex[F.strip_casts(nd['c'][1])]
+                fr_, ur_ = None, None
+                adv[e] = adv.get(e, set()) | set(u or ['?'])
+        for i, (e, u) in enumerate(sorted(adv.items(), key=lambda kv: F.ex[kv[0]]['loc'])):
+            ok = u == {'S'}
+            chk.ob('R20.1', k, f'position-advance-in-stream-samples#{i}', ok, F.where(e), f'{F.s(e)}: advance in {sorted(u)}')
+            n += 1
+    chk.floor('R20.1', 8)
